@@ -619,7 +619,7 @@ def listen_jobs():
 
 
 # ------------------------------------------------------------------ several forwards on one connection
-def multi_case(kind, ports, close_first):
+def multi_case(kind, ports, close_first, ending='close'):
     """two forwards of the same kind on one connection (same listen host; dynamic or fixed ports) to two
     different destinations: each listener relays to its own destination; closing one leaves the other
     working; when the connection ends both are released and wait_closed() returns"""
@@ -666,14 +666,23 @@ def multi_case(kind, ports, close_first):
         r1, r2 = talk(l1, '1', b1), talk(l2, '2', b2)
         if r1 != 'ok' or r2 != 'ok':
             viol.append(('misrouted', 'listener 1 -> %s ; listener 2 -> %s' % (r1, r2)))
-        first, second, sink2, tag2 = (l1, l2, b2, '2') if close_first == 1 else (l2, l1, b1, '1')
-        first.close()
-        loop.flush_all()
-        r = talk(second, tag2, sink2)
-        if r != 'ok':
-            viol.append(('other-forward-broken-by-close', 'after closing one listener the other gives: %s' % r))
+        if close_first:
+            first, second, sink2, tag2 = (l1, l2, b2, '2') if close_first == 1 else (l2, l1, b1, '1')
+            first.close()
+            loop.flush_all()
+            r = talk(second, tag2, sink2)
+            if r != 'ok':
+                viol.append(('other-forward-broken-by-close', 'after closing one listener the other gives: %s' % r))
+        # close_first == 0: neither listener is closed by the application; the end of the connection releases both
         wc = [loop.create_task(l.wait_closed()) for l in (l1, l2)]
-        c.close()
+        if ending == 'close':
+            c.close()
+        elif ending == 'abort':
+            c.abort()
+        elif ending == 'server-close':
+            w.pair.s.close()
+        else:
+            loop.cut(w.pair.ct, ConnectionResetError('cut'))
         loop.flush_all()
         for i, t in enumerate(wc):
             if not t.done():
@@ -696,18 +705,20 @@ def multi_case(kind, ports, close_first):
 
 def multi_worker(job):
     acc = core.Acc()
-    for kind, ports, close_first in job:
-        viol = multi_case(kind, ports, close_first)
-        acc.add(core.digest(('multi', kind, ports, close_first)), transitions=6,
+    for case in job:
+        kind, ports, close_first = case[:3]
+        viol = multi_case(*case)
+        acc.add(core.digest(('multi',) + tuple(case)), transitions=6,
                 sample={'two_forwards': kind, 'ports': ports, 'closed_first': close_first} if kind == 'remote' and ports == 'dynamic' else None)
         for k, d in viol:
             acc.violation('forward:%s:two-%s-%s' % (k, kind, ports), '%s ; close_first=%d' % (d, close_first),
-                          {'kind': 'multi', 'case': [kind, ports, close_first]})
+                          {'kind': 'multi', 'case': list(case)})
     return acc
 
 
 def multi_jobs():
-    return [[(kind, ports, cf)] for kind in ('remote', 'local', 'mixed') for ports in ('dynamic', 'fixed') for cf in (1, 2)]
+    return [[(kind, ports, cf, ending)] for kind in ('remote', 'local', 'mixed') for ports in ('dynamic', 'fixed') for cf in (0, 1, 2)
+            for ending in ('close', 'abort', 'server-close', 'cut')]
 
 
 # ------------------------------------------------------------------ SOCKS grid end to end
